@@ -15,7 +15,7 @@ BASE = {
     "Keys": "<- c_Keys1", "KVals": "<- c_KVals2", "Names": "<- c_Names1", "Ids": "<- c_Ids2", "Vecs": "<- c_Vecs2",
     "MKeys": "<- c_MKeys1", "MVals": "<- c_MVals2", "Cfgs": "<- c_CfgsA", "Maints": "<- c_Maints1", "ALs": "<- c_ALs1",
     "Targets": "<- c_Targets", "GNodes": "<- c_Empty", "Rels": "<- c_Empty", "Ws": "<- c_Empty", "Ps": "<- c_Empty",
-    "GName": '"ix"', "CoreVacuum": "FALSE", "Seeded": "FALSE", "Imports": "FALSE", "Evolves": "FALSE", "Connections": "FALSE", "AccSeeds": "<- c_Empty", "SeedGraph": "FALSE", "SeedTail": "TRUE", "SeedMaint": '"nil"', "Devs": "<- c_Empty", "MaxFile": 3, "MaxCtr": 3, "MaxAcc": 1, "MaxVer": 2, "MaxOps": 5, "MaxRej": 2,
+    "GName": '"ix"', "CoreVacuum": "FALSE", "Seeded": "FALSE", "Imports": "FALSE", "Evolves": "FALSE", "Connections": "FALSE", "AccSeeds": "<- c_Empty", "SeedGraph": "FALSE", "SeedMV": '"nil"', "SeedTail": "TRUE", "SeedMaint": '"nil"', "Devs": "<- c_Empty", "MaxFile": 3, "MaxCtr": 3, "MaxAcc": 1, "MaxVer": 2, "MaxOps": 5, "MaxRej": 2,
 }
 
 GRAPH = dict(BASE, **{
@@ -272,6 +272,19 @@ def run(prop, tier):
         for i, b in enumerate(b3):
             b["id"] = "sb%d" % i
         plans.append((sb, b3))
+    if prop in ("C01", "C04"):
+        # the seeded vectors carry metadata: an index dropped and created again under the same name must not inherit
+        # anything (per-index maps keyed by the name and the insertion ordinal) -- drop, create, add without metadata
+        sm = dict(SEEDED_BASE, SeedMV='"m1"', MaxOps=3 if quick else 4)
+        csm = corpus(chk, "MC_Kektor_seeded_meta_corpus", sm, workers=8, timeout=3000)
+        def recreated(ops):
+            names = [o.get("op") for o in ops[3:] if o.get("res") == "ok"]
+            return "VDeleteIndex" in names and "VCreate" in names[names.index("VDeleteIndex"):]
+        bsm, _ = vlib.behaviours_from_corpus(csm, max_behaviours=250 if quick else 20000, rng=rng, need=recreated,
+                                             stratum=lambda ops: tuple(o.get("op") for o in ops[3:]))
+        for i, b in enumerate(bsm):
+            b["id"] = "sm%d" % i
+        plans.append((sm, bsm))
     if prop == "C04":
         s3 = dict(SEEDED_IDS5, MaxOps=3 if quick else 4)
         c3 = corpus(chk, "MC_Kektor_seeded_ids5_corpus", s3, workers=8, timeout=3000)
